@@ -651,6 +651,18 @@ def run_fault(target, point, exc_type, strict=False, second_call=True):
       viol.append(('not-remembered', '%s: the second call attempted the conversion again' % where))
     if len(_S['warnings']) != nw:
       viol.append(('not-remembered', '%s: the second call warned again' % where))
+    # ... but only for these options: under another option value the decision is taken afresh (the conversion now succeeds)
+    del _S['converted'][:]
+    del counts[:]
+    other = converter.ConversionOptions(recursive=True, user_requested=False, optional_features=converter.Feature.BUILTIN_FUNCTIONS)
+    try:
+      got3 = ('ret', norm(api.converted_call(fn, args, kwargs, options=other)))
+    except BaseException as e:  # pylint:disable=broad-except
+      got3 = ('exc', type(e).__name__)
+    if got3 != want:
+      viol.append(('other-options-result', '%s: a later call under other options gives %r, expected %r' % (where, got3, want)))
+    if not any(k == 'done' for k, _ in _S['converted']):
+      viol.append(('remembered-across-options', '%s: a later call under a different option value was not converted' % where))
   return viol, got
 
 
